@@ -170,12 +170,26 @@ TOTAL = re.compile(r"Total: (?P<n>[0-9,]+) chunks, (?P<d>[0-9,]+) directories, r
                    r"uncompressed size (?P<size>.+)B$")
 
 
+class StatsMisuse(Exception):
+    pass
+
+
 def _run_stats(info):
+    """The report is produced twice from the caller's own info object, which must come
+    back unchanged (it is the PrecomputedIO's description of the dataset)."""
     from neuroglancer_scripts.scripts import scale_stats
-    buf = io.StringIO()
-    with contextlib.redirect_stdout(buf):
-        scale_stats.show_scales_info(copy.deepcopy(info))
-    return buf.getvalue()
+    mine = copy.deepcopy(info)
+    outs = []
+    for _ in range(2):
+        buf = io.StringIO()
+        with contextlib.redirect_stdout(buf):
+            scale_stats.show_scales_info(mine)
+        outs.append(buf.getvalue())
+    if mine != info:
+        raise StatsMisuse("show_scales_info modified the info dictionary it was given")
+    if outs[0] != outs[1]:
+        raise StatsMisuse("a second report on the same info differs from the first")
+    return outs[0]
 
 
 def _parse(out):
@@ -239,6 +253,9 @@ def run_big(case):
           f"{info['data_type']}x{info['num_channels']}"
     try:
         out = _run_stats(info)
+    except StatsMisuse as exc:
+        return {"violations": [{"kind": "scale-stats-state", "detail": f"{ctx}: {exc}"}],
+                "obs": obs}
     except Exception as exc:  # noqa: BLE001
         return {"violations": [{"kind": "scale-stats-raised",
                                 "detail": f"{ctx}: {type(exc).__name__}: {str(exc)[:200]}"}],
